@@ -43,7 +43,8 @@ def prelude(w, d, rng, res):
     w.full_audit([col])
     uid = d.uids[k % len(d.uids)]
     t = [w.new_token() for _ in range(4)]
-    w.put(col, "a.ics", gen.ical(rng, uid, t[0], rich=False), op="put_new", uid=uid, token=t[0])
+    first_body = gen.ical(rng, uid, t[0], rich=False)
+    w.put(col, "a.ics", first_body, op="put_new", uid=uid, token=t[0])
     w.full_audit([col])
     if k % 2 == 0:
         # the last request before the collection goes away is one the server refuses ...
@@ -58,7 +59,12 @@ def prelude(w, d, rng, res):
     w.mkcol(col, "calendar", how=rng.choice(["auto", "mkcol-ext"]))
     if col in w.cols:
         w.full_audit([col, "/user/calendars/"])
-        w.put(col, "c.ics", gen.ical(rng, uid, t[2], rich=False), op="put_new", uid=uid, token=t[2])
+        if k % 2 == 1:
+            # ... the very bytes the old collection held (restored from the client's copy): nothing of the old collection is left
+            w.put(col, "c.ics", first_body, op="put_into_recreated", uid=uid, token=t[0])
+            res.count("scripted_identical_bytes_into_recreated_collection")
+        else:
+            w.put(col, "c.ics", gen.ical(rng, uid, t[2], rich=False), op="put_new", uid=uid, token=t[2])
         w.full_audit([col])
         if k >= 2:
             w.put(col, "a.ics", gen.ical(rng, d.uids[(k + 1) % len(d.uids)], t[3], rich=False), op="put_new", uid=d.uids[(k + 1) % len(d.uids)], token=t[3])
